@@ -348,6 +348,10 @@ def affine_form_opaque(fn):
             return None
         if d[0] == "call":
             cp = d[2]["callee"].get("path") or ""
+            SAT = {"core::num::<impl usize>::saturating_mul": "mul", "core::num::<impl usize>::saturating_add": "add",
+                   "core::num::<impl usize>::checked_mul": None}
+            if cp in SAT and SAT[cp] and len(d[2]["args"]) == 2:
+                cp = "core::ops::arith::" + ("Mul::mul" if SAT[cp] == "mul" else "Add::add")
             if cp in ("core::ops::arith::Mul::mul", "core::ops::arith::Add::add", "core::ops::arith::Sub::sub") and len(d[2]["args"]) == 2:
                 a = ev_op_ref(d[2]["args"][0], depth + 1)
                 b = ev_op_ref(d[2]["args"][1], depth + 1)
@@ -385,13 +389,7 @@ def affine_form_opaque(fn):
                 return None
         return None
 
-    ds = [x for x in fn.defs.get(0, [])]
-    if len(ds) != 1 or ds[0][0] != "assign":
-        return None
-    rv = ds[0][3]
-    r = None
-    if rv["k"] == "use":
-        r = ev_op(rv["op"], 0)
+    r = ev_local(0, 0)
     if r is None:
         return None
     return (r[0], r[1], leaves[0] if leaves else None)
@@ -583,4 +581,62 @@ def arm_region(fn, sw_bb, target):
     for b in fn.nodes():
         if dominated_by_edge(fn, sw_bb, target, b):
             out.add(b)
+    return out
+
+
+# ------------------------------------------------------------------------------------
+# closures: captured upvars resolved to the parent's places (DESIGN 3.2a)
+# ------------------------------------------------------------------------------------
+def closure_captures(parent, closure_path):
+    """list (by upvar index) of the parent's places captured by the closure constructed in `parent`"""
+    for b, i, p, rv, s in parent.assigns():
+        if rv["k"] == "aggregate" and rv["akind"] == "closure" and rv["closure"] == closure_path:
+            out = []
+            for o in rv["ops"]:
+                l = op_local(o)
+                tgt = None
+                if l is not None:
+                    tgt = parent.resolve_ptr(l)
+                    if tgt is None:
+                        pl = op_place(o)
+                        tgt = parent.canon(pl) if pl else None
+                else:
+                    pl = op_place(o)
+                    tgt = parent.canon(pl) if pl else None
+                out.append(tgt)
+            return out
+    return None
+
+
+def closure_self_writes(prog, parent, closure):
+    """fields of the parent's *self written inside `closure` (through by-reference captures or a captured &mut self)"""
+    caps = closure_captures(parent, closure.path)
+    out = set()
+    if caps is None:
+        return out
+    for b, i, p, rv, s in closure.assigns():
+        l, proj = p
+        # (*(_1.k)).rest  or (*((*_1).k)).rest
+        k = None
+        rest = None
+        if l == 1 and proj and proj[0][0] == "field" and len(proj) >= 2 and proj[1] == ("deref",):
+            k, rest = proj[0][1], proj[2:]
+        elif l == 1 and len(proj) >= 3 and proj[0] == ("deref",) and proj[1][0] == "field" and proj[2] == ("deref",):
+            k, rest = proj[1][1], proj[3:]
+        else:
+            # through a local copy of the upvar: _9 = _1.1; (*_9) = ..
+            if proj and proj[0] == ("deref",):
+                d = closure.single_def(l)
+                if d and d[0] == "assign" and d[3]["k"] == "use":
+                    q = op_place(d[3]["op"])
+                    if q and q[0] == 1:
+                        fs = [e for e in q[1] if e[0] == "field"]
+                        if fs:
+                            k, rest = fs[0][1], proj[1:]
+        if k is None or k >= len(caps) or caps[k] is None:
+            continue
+        tgt = (caps[k][0], caps[k][1] + tuple(rest))
+        f = self_field(tgt)
+        if f:
+            out.add(f)
     return out
